@@ -428,6 +428,11 @@ def gen_constraint(cons: ast.AST) -> str:
             "def constraintSensesG : List String := [" + ", ".join(json.dumps(x) for x in senses) + "]"]
     ev = [st for st in meth["evaluate"].body if not (isinstance(st, ast.Expr) and isinstance(st.value, ast.Constant))]
     out += ["def constraintEvaluateTextG : String := " + json.dumps("; ".join(_u(x) for x in ev))]
+    if "get_variables" not in meth:
+        raise TranslateError("Constraint.get_variables not found")
+    gv = [st for st in meth["get_variables"].body if not (isinstance(st, ast.Expr) and isinstance(st.value, ast.Constant))]
+    out += ["/-- `Constraint.get_variables()`: the variables of the normalised expression, by the recursive collector -/",
+            "def constraintGetVariablesTextG : String := " + json.dumps("; ".join(_u(x) for x in gv))]
     return "\n".join(out) + "\n"
 
 
